@@ -11,8 +11,8 @@ import (
 
 func init() {
 	register(&propDef{
-		ID:  "C16",
-		Run: ruleC16,
+		ID:          "C16",
+		Run:         ruleC16,
 		Explanation: "Decides the wiring of Atlas mode (structural necessary conditions of C16): the --atlasLogStartDate/--atlasLogEndDate values reach, through setters, globals, the window function, the download call and the per-host call, exactly the Sprintf operands that follow 'startDate=' / 'endDate=' in the constant URL format (no crossing, no break); project id, host and cluster name reach their path segments; the default window is (now-604800, now) from one time.Now; one per-host call per element of the host list in order, one client.Do per function and no loop around it (no retry); every request URL starts with the client's BaseURL, which is stored only from an https cloud.mongodb.com constant; the temp file is written only by io.Copy from the response body; output <outputFile>.<i> is created from the flag and the loop index and is the writer of the processing call for file i in the same iteration. NOT decided: HTTP behaviour, digest challenge rounds, gzip payload handling, SRV resolution.",
 		RuleText:    "obligations = positions of the URL format strings (operand taint by role), window function returns, host-loop shape, request constructors, BaseURL stores, temp-file writers, per-file loop pairing",
 	})
@@ -392,6 +392,7 @@ func ruleC16(c *Ctx, r *Report) {
 	// ---- R6: pairing of file i with <outputFile>.<i>
 	r.Floor("C16-R6", 1, "per-file loop")
 	c16Pairing(c, r, an, a)
+	encryptHonouredRule(c, r, c.anchors(), "C16-R6")
 }
 
 func isUnixNow(v ssa.Value) bool {
